@@ -57,7 +57,10 @@ func (opts CollectJSONOptions) getSource() (<-chan *birch.Document, <-chan error
 				doc := &birch.Document{}
 				err := bson.UnmarshalExtJSON(stream.Bytes(), false, doc)
 				if err != nil {
-					errs <- err
+					// a new error rather than a wrapped one: the cause of a
+					// parse error can be io.EOF (a line cut inside a literal),
+					// which the collecting loop takes for the end of the input
+					errs <- errors.Errorf("problem parsing json line: %v", err)
 					return
 				}
 				vpoint("js.send")
@@ -82,7 +85,10 @@ func (opts CollectJSONOptions) getSource() (<-chan *birch.Document, <-chan error
 				doc := &birch.Document{}
 				err := bson.UnmarshalExtJSON(stream.Bytes(), false, doc)
 				if err != nil {
-					errs <- err
+					// a new error rather than a wrapped one: the cause of a
+					// parse error can be io.EOF (a line cut inside a literal),
+					// which the collecting loop takes for the end of the input
+					errs <- errors.Errorf("problem parsing json line: %v", err)
 					return
 				}
 				out <- doc
@@ -111,7 +117,10 @@ func (opts CollectJSONOptions) getSource() (<-chan *birch.Document, <-chan error
 				doc := birch.NewDocument()
 				err := bson.UnmarshalExtJSON([]byte(line.String()), false, doc)
 				if err != nil {
-					errs <- err
+					// a new error rather than a wrapped one: the cause of a
+					// parse error can be io.EOF (a line cut inside a literal),
+					// which the collecting loop takes for the end of the input
+					errs <- errors.Errorf("problem parsing json line: %v", err)
 					return
 				}
 				out <- doc
